@@ -36,6 +36,20 @@ theorem C08_condensed_counterexample :
     (encodeMessage none [p] (.dict [("x", .atom (.int 0x55))]) none true).toOption = some ([0, 0, 0xaa], 0) := by
   decide +kernel
 
+/-- **Open finding `nested-structure-cursor-behind-last-listed-parameter`, exhibited in the model** (found while
+    lifting `C08_static_length_partial` to nested structures: the lift is false). A nested STRUCTURE whose last
+    *listed* parameter is not the one that extends furthest, followed by an implicitly positioned sibling: the static
+    length advances by the structure's full extent (4 bytes in total), encoder and decoder continue behind the last
+    listed inner parameter (3 bytes; the round trip holds). Same witness on the real code: corpus of c08.py. -/
+theorem C08_nested_cursor_counterexample :
+    let u8 (n : String) (bp : Option Nat) : Param :=
+      .mk n bp none (.value (.simple (.std .uint32 none true 8 none false) .uint32 .identical) none)
+    let ps : List Param := [.mk "s" none none (.value (.struct none [u8 "a" (some 2), u8 "b" (some 0)]) none), u8 "x" none]
+    let v : PVal := .dict [("s", .dict [("a", .atom (.int 1)), ("b", .atom (.int 2))]), ("x", .atom (.int 3))]
+    (Dop.struct none ps).staticBitLen = some 32 ∧
+    (encodeMessage none ps v none true).toOption = some ([2, 3, 1], 0) := by
+  decide +kernel
+
 /-! non-vacuity -/
 example : (Dop.struct none (exObjs.map fun ov => ov.1.toParam)).staticBitLen = some 160 := by decide
 example : ∃ p ∈ exObjs.map (fun ov => ov.1.toParam), (∃ d, p.kind = .value d none) ∧ lookup p.name [("a", PVal.atom (.int 1))] = none :=
